@@ -11,20 +11,20 @@ CHECKS = {
         "validated by TLC against the same specification. This is the right level because the property quantifies over interleavings.",
    note="std Mutex/Condvar semantics as modelled; OS choice of the woken waiter is observed, not forced; stuck = no progress for 2.5 s; schedules at macro-step grain",
    tech="TLC model checking + schedule replay into real code + TLC trace validation"),
- "C05": dict(cat="fault_enumeration", sec="5 C05",
+ "C05": dict(cat="model_checking", sec="5 C05",
    text="DedupeOps.tla (each command as its sequence of system calls with failure / roll-back branches) is model-checked by TLC for all interleavings of two commands, "
         "every crash point and every single and double failure. The real binary is run under an LD_PRELOAD shim once per (scenario, position k of a mutating/lock call, "
         "kill before / kill after / each errno) and per pair (operation + its roll-back); the C05 statements are evaluated by TLC on the real inventories (mode obs) and the "
         "recorded call sequence drives the specification with every invariant evaluated after every call and the abstract file system compared with the real one at the end (mode full).",
    note="kill at syscall boundary (no torn writes); reflink success emulated by the shim; positions from a calibration run; single-threaded sweep (parallel in thorough)",
    tech="TLC model checking + syscall fault/crash enumeration on the real binary + TLC trace validation"),
- "C18": dict(cat="fault_enumeration", sec="5 C18",
+ "C18": dict(cat="model_checking", sec="5 C18",
    text="The move part of DedupeOps.tla is model-checked by TLC (collisions, failures of rename/mkdir/copy/unlink, crash points). Real `fclones move` runs on two real devices "
         "(tmpfs/ext4) with pre-existing files, directories and files-at-parent at the targets, relative/absolute DIR, hostile names, and a failure or kill at every mutating call; "
         "NoOverwrite / SourceLast / target mapping are evaluated by TLC on real inventories and on the reconstructed intermediate states.",
    note="expected target computed by the driver from the documented mapping; kill at syscall boundary",
    tech="TLC model checking + fault enumeration on the real binary + TLC trace validation"),
- "C20": dict(cat="exploration", sec="5 C20",
+ "C20": dict(cat="model_checking", sec="5 C20",
    text="DedupeOps.tla with foreign locks is model-checked by TLC for every subset of droppable members locked x --no-lock x 5 operations; the real binary is run for the same matrix "
         "(exclusive and shared foreign fcntl locks held by a separate process) and LockedLeftAlone / OthersProcessed are evaluated by TLC on the real inventories and call traces.",
    note="POSIX fcntl locks held by a helper process for the whole run; 4-file groups",
